@@ -1298,7 +1298,20 @@ def run_live(ctx):
             ctx.trace_ok()
 
 
+def _honour_scale(ctx):
+    """VERIF_SCALE=<n> multiplies every case budget by n (the escalated failing-input search runs at 10): lets the
+    10x regime be exercised on demand, e.g. `VERIF_SCALE=10 ./check C02`"""
+    import os
+    v = os.environ.get("VERIF_SCALE")
+    if v:
+        try:
+            ctx.scale = max(ctx.scale, int(v))
+        except ValueError:
+            pass
+
+
 def check(ctx):
+    _honour_scale(ctx)
     erf_correspondence(ctx)
     pts = gen_points(ctx, ctx.budget(700, 16000))
     # hints from a previous correspondence failure: re-run those parameter points first (failing-input search)
@@ -1378,7 +1391,10 @@ _STALE = {
     "LaplaceFolded": {"epsilon": 1.0, "delta": 0.0, "sensitivity": 1.0, "lower": 0.0, "upper": 1.0},
     "Uniform": {"delta": 0.25, "sensitivity": 1.0},
     "Staircase": {"epsilon": 1.0, "sensitivity": 1.0, "gamma": 0.5},
+    # keeps `_bound` from construction: widening the domain afterwards leaves the internal epsilon too large for the new B
+    "Snapping": {"epsilon": 1.0, "sensitivity": 1.0, "lower": -1e6, "upper": 1e6},
 }
+_STALE_ASSIGN = {"Uniform": {"delta": 0.025}, "Snapping": {"upper": 1.9e7}}
 
 
 def _witness_stale(mech):
@@ -1386,7 +1402,7 @@ def _witness_stale(mech):
         from ..core import Ctx
         c = Ctx(PROPERTY, "quick", 0)
         p1 = dict(_STALE[mech])
-        asg = {"delta": 0.025} if mech == "Uniform" else {"epsilon": 0.1}
+        asg = dict(_STALE_ASSIGN.get(mech, {"epsilon": 0.1}))
         res = live_case(c, mech, p1, asg, 12345, ["randomise"], 67890)
         hits = [v for v in c.violations if v["signature"] == f"C02:{mech}:stale-calibration"]
         return bool(hits), (hits[0]["what"][:600] if hits else f"{mech}: live calibration after assignment = fresh ({res})")
